@@ -23,6 +23,10 @@ def run(ctx):
     datas = [b'', b'\x00', b'\xff', b'a', b'abc', b'123456789', bytes(32), b'\xff' * 32] + [rb(n) for n in (list(range(1, 41, 3 if not big else 1)) + [64, 100, 255, 256, 300])] + ([rb(rnd.randrange(300)) for _ in range(60)] if big else [])
     for d in datas:
         rec(dict(op='crc32', data=B(d)), lambda d=d: C.crc32(d), lambda r: W(r, 2)); ctx.mark(('crc32', len(d), d[:4].hex()))
+    import zlib as _z
+    zs = [b'zc-%d-%d' % (ctx.seed, i) for i in range(3000)]
+    for d in [x for x in zs if _z.crc32(x) >> 24 == 0][:2] + [x for x in zs if _z.crc32(x) & 0xff == 0][:2] + [x for x in zs if _z.crc32(x) < (1 << 16)][:1]:
+        rec(dict(op='crc32', data=B(d)), lambda d=d: C.crc32(d), lambda r: W(r, 2)); ctx.mark(('crc32-zero-edge', d))
     # generic reflected CRCs
     for width in (8, 12, 16, 24, 31, 32, 33, 40, 64):
         nl = (width + 15) // 16
